@@ -31,13 +31,57 @@ def _data_uri(fmt, seed):
 
 
 FEATURES = ['list', 'table', 'flex', 'grid', 'float', 'image', 'image-jpeg', 'target-counter', 'running', 'footnote',
-            'columns', 'quotes', 'counter-style', 'abs', 'var', 'orientation', 'inline-block', 'hyphens']
+            'columns', 'quotes', 'counter-style', 'abs', 'var', 'orientation', 'inline-block', 'hyphens',
+            'inline-svg', 'svg-image', 'decorations']
+# features whose code paths keep per-object or per-process state (the drawing code of SVG nodes works on attribute
+# dictionaries, set-valued computed values are iterated, images are cached): every job pool contains each of them
+STATEFUL_FEATURES = ['inline-svg', 'decorations', 'svg-image', 'image-jpeg']
 
 
-def gen_rich_doc(rng):
-    """A small document exercising many layout modules; lengths are arbitrary (no exact model is involved)."""
+def gen_svg(rng, tag, rewriting=False):
+    """An <svg> element using what the SVG cascade and drawing code rewrite per node: presentation attributes
+    inherited from groups, style declarations, currentColor, <use x y>, gradients, clip paths, markers, text.
+    `rewriting`: also the constructs for which the unchanged code rewrites the element tree it was given (patterns,
+    masks, text with collapsible white space, nested <svg> without a size: known finding svg-rewrites-element-tree)."""
+    ident = lambda name: f'{tag}{name}'   # noqa: E731 - ids are unique per document
+    defs = [f'<rect id="{ident("t")}" width="12" height="12"/>',
+            f'<linearGradient id="{ident("g")}" x1="0" x2="1"><stop offset="0" stop-color="red"/>'
+            f'<stop offset="1" stop-color="blue"/></linearGradient>',
+            f'<clipPath id="{ident("c")}"><circle cx="20" cy="20" r="15"/></clipPath>',
+            f'<marker id="{ident("k")}" markerWidth="4" markerHeight="4"><circle cx="2" cy="2" r="2"/></marker>',
+            f'<g id="{ident("s")}"><circle r="4"/><rect x="5" width="6" height="6"/></g>']
+    if rewriting:
+        defs += [f'<pattern id="{ident("p")}" width="0.25" height="0.5"><circle cx="3" cy="3" r="2" fill="green"/>'
+                 '</pattern>', f'<mask id="{ident("m")}"><rect width="60" height="30" fill="white"/></mask>']
+    shapes = [
+        f'<circle cx="{rng.randrange(8, 30)}" cy="{rng.randrange(8, 40)}" r="{rng.randrange(3, 9)}"/>',
+        f'<use href="#{ident("t")}" x="{rng.randrange(30, 60)}" y="{rng.randrange(2, 20)}"/>',
+        f'<use href="#{ident("t")}" x="{rng.randrange(60, 100)}" y="{rng.randrange(20, 44)}" fill="red"/>',
+        f'<use href="#{ident("s")}" x="{rng.randrange(10, 90)}" y="{rng.randrange(40, 52)}" stroke="none"/>',
+        f'<rect x="70" y="4" width="30" height="12" fill="url(#{ident("g")})"/>',
+        f'<rect x="4" y="44" width="40" height="40" clip-path="url(#{ident("c")})"/>',
+        f'<path d="M 5 5 l 10 10 l 10 -10" marker-mid="url(#{ident("k")})" fill="none"/>',
+        f'<path d="M 50 30 l 10 10 l 10 -10 z" style="fill:none;stroke-width:{rng.randrange(1, 4)}"/>',
+        '<text x="40" y="28" font-size="8" fill="currentColor" stroke="none">ab</text>',
+        f'<g transform="translate({rng.randrange(0, 9)},2)" fill="inherit"><rect width="5" height="5"/></g>',
+    ]
+    chosen = rng.sample(shapes, rng.randrange(2, len(shapes) + 1))
+    if rewriting:
+        chosen += [f'<rect x="4" y="44" width="40" height="12" fill="url(#{ident("p")})"/>',
+                   f'<rect x="50" y="44" width="40" height="12" mask="url(#{ident("m")})"/>',
+                   '<text x="4" y="20" font-size="8">  a  b <tspan> c </tspan> d </text>',
+                   '<svg x="5" y="5"><rect width="5" height="5"/></svg>']
+    group = (f'<g fill="{rng.choice(["lime", "orange", "currentColor"])}" stroke="blue" '
+             f'stroke-width="{rng.choice([1, 2])}" style="opacity:{rng.choice(["1", ".75"])}">' + ''.join(chosen) + '</g>')
+    return ('<svg xmlns="http://www.w3.org/2000/svg" xmlns:xlink="http://www.w3.org/1999/xlink" width="60" height="30" '
+            f'viewBox="0 0 120 60" color="purple"><defs>{"".join(defs)}</defs>{group}</svg>')
+
+
+def gen_rich_doc(rng, force=()):
+    """A small document exercising many layout modules; lengths are arbitrary (no exact model is involved).
+    `force`: features the document must contain."""
     width, height = rng.choice([120, 160, 200]), rng.choice([90, 120, 150])
-    features = rng.sample(FEATURES, rng.randrange(2, 7))
+    features = list(force) + [f for f in rng.sample(FEATURES, rng.randrange(2, 7)) if f not in force]
     css = [f'@page{{size:{width}px {height}px;margin:8px;bleed:{rng.choice([0, 3, 14])}px;'
            '@top-center{content:string(head) " " counter(page) "/" counter(pages);font-size:6px}}',
            'html,body{margin:0}body{font-family:weasyprint;font-size:8px;line-height:10px}'
@@ -113,6 +157,25 @@ def gen_rich_doc(rng):
             body.append(f'<p>{text(2)} <span style="display:inline-block;width:20px;border:1px solid">{text(2)}</span></p>')
         elif feature == 'hyphens':
             body.append(f'<p lang="en" style="hyphens:auto;width:40px">{"hyphenation " * 3}</p>')
+        elif feature == 'inline-svg':
+            body.append(f'<div style="display:block">{gen_svg(rng, anchor)}</div>')
+            if rng.random() < 0.5:
+                body.append(f'<p>{text(2)} {gen_svg(rng, anchor + "b")}</p>')
+        elif feature == 'svg-image':
+            uri = 'data:image/svg+xml;base64,' + base64.b64encode(gen_svg(rng, anchor).encode()).decode()
+            body.append(f'<p><img src="{uri}" style="width:60px"> {text(1)} <img src="{uri}" style="width:30px"></p>')
+            if rng.random() < 0.5:
+                body.append(f'<div style="height:20px;background:url({uri}) no-repeat"></div>')
+        elif feature == 'decorations':
+            lines = ['underline', 'overline', 'line-through']
+            for _ in range(rng.randrange(1, 4)):
+                outer = ' '.join(rng.sample(lines, rng.randrange(2, 4)))
+                inner = ' '.join(rng.sample(lines, rng.randrange(1, 3)))
+                extra = rng.choice(['', ';text-decoration-color:red', ';text-decoration-style:wavy',
+                                    ';text-decoration-thickness:2px;text-underline-offset:1px'])
+                body.append(f'<p style="text-decoration:{outer}{extra}">{text(2)} '
+                            f'<span style="text-decoration:{inner}">{text(2)}</span> '
+                            f'<a href="#{anchor}" style="text-decoration:underline overline">{text(1)}</a></p>')
         if rng.random() < 0.3:
             body.append(f'<p>{text(rng.randrange(5, 40))}</p>')
         if rng.random() < 0.2:
